@@ -1,5 +1,6 @@
 // harness/h_exact.cpp -- exact (rational) side: C03 exact solve, C07 real/rational LP synchronisation,
 // C11 (API half: rational basis inverse), C04(g) forced basic solutions.
+#include <memory>
 #include "sx.hpp"
 #include "solvecommon.hpp"
 
@@ -1442,6 +1443,60 @@ static XRes c07Run(uint64_t sub, int nsteps, bool count)
             if(count) S.count("c07.solves");
             break;
          }
+         case 47:
+         {
+            // copy construction / assignment with the rational LP present (C17): the copy must hold the same two LPs and bound-type
+            // arrays, changing and destroying it must leave the source untouched (ASan watches for shared storage)
+            if(!g.chance(0.6)) continue;
+            bool byAssign = g.chance(0.5);
+            cur = byAssign ? "copy(assign)" : "copy(ctor)";
+            {
+               std::unique_ptr<SoPlex> cp;
+               if(byAssign)
+               {
+                  cp.reset(new SoPlex());
+                  quiet(*cp);
+                  if(g.chance(0.5))
+                  {
+                     Planted P2;
+                     Rng g2(909, sub, (uint64_t)step);
+                     LPModel other = genPlantedOpt(g2, P2, 3, 3, false);
+                     cp->setIntParam(SoPlex::SYNCMODE, SoPlex::SYNCMODE_AUTO, true);
+                     loadRational(*cp, other, 0);
+                  }
+                  *cp = sp;
+               }
+               else cp.reset(new SoPlex(sp));
+               std::string e = compareSync(*cp, M, dummy);
+               if(!e.empty())
+               {
+                  fail("copy.unequal." + e.substr(0, e.find(':')), "copy (" + cur + ") differs from the mirror of its source: " + e.substr(e.find(':') + 1) + " (step " + std::to_string(step) + ")");
+                  break;
+               }
+               // change the copy through the rational interface, then destroy it
+               if(cp->numColsRational() > 0)
+               {
+                  int j = g.range(0, cp->numColsRational() - 1);
+                  cp->changeObjRational(j, Rational(7, 3));
+                  cp->changeBoundsRational(j, Rational(-5, 7), Rational(11, 2));
+               }
+               if(cp->numRowsRational() > 0) cp->changeRangeRational(g.range(0, cp->numRowsRational() - 1), Rational(-9, 4), Rational(9, 4));
+               if(g.chance(0.3) && cp->numColsRational() > 0)
+               {
+                  cp->setIntParam(SoPlex::ITERLIMIT, 500, true);
+                  cp->optimize();
+               }
+            }
+            // the source must be what it was
+            std::string e = compareSync(sp, M, dummy);
+            if(!e.empty())
+            {
+               fail("copy.dependent." + e.substr(0, e.find(':')), "changing / destroying a copy changed the source: " + e.substr(e.find(':') + 1) + " (step " + std::to_string(step) + ")");
+               break;
+            }
+            checked = false;
+            break;
+         }
          case 46:
          {
             // an exact solve in between (feasibility / unboundedness tests add and remove auxiliary columns and rows, lifting and
@@ -1502,10 +1557,15 @@ static void caseC07(long long k, Rng& g)
    S.count("cases");
    S.seen("nontrivial", sub);
    XRes r = c07Run(sub, nsteps, true);
-   if(!r.tag.empty()) S.viol("C07:" + r.tag, r.detail, Json().num("history_seed", (long long)(sub >> 1)).done());
+   if(!r.tag.empty())
+   {
+      bool isCopy = r.tag.rfind("copy.", 0) == 0;
+      // the C17 stage of this harness reports only the findings about copies; the C07 check reports everything
+      if(cli.prop == "C07" || isCopy) S.viol(cli.prop + ":" + (cli.prop == "C17" ? "exact-" : "") + r.tag, r.detail, Json().num("history_seed", (long long)(sub >> 1)).done());
+   }
    if(k < 3) S.sample(Json().num("history", (long long)(sub % 100000)).num("steps", nsteps).done());
    // only-real mode: an exact solve first copies the floating-point LP exactly
-   if(k % 4 == 0)
+   if(k % 4 == 0 && cli.prop == "C07")
    {
       Rng g2(708, sub, 8);
       std::string fam;
@@ -1581,9 +1641,9 @@ int main(int argc, char** argv)
    for(long long k = cli.from; k < cli.to; k++)
    {
       // C04(g) and C11(api) ride on the C03 stream: same cases, only their own findings are reported
-      Rng g(fnv(cli.prop == "C07" ? "C07" : "C03"), cli.seed, (uint64_t)k);
+      Rng g(fnv(cli.prop == "C07" || cli.prop == "C17" ? "C07" : "C03"), cli.seed, (uint64_t)k);
       if(cli.prop == "C03" || cli.prop == "C11" || cli.prop == "C04") caseC03(k, g);
-      else if(cli.prop == "C07") caseC07(k, g);
+      else if(cli.prop == "C07" || cli.prop == "C17") caseC07(k, g);
       else
       {
          fprintf(stderr, "h_exact: unknown property %s\n", cli.prop.c_str());
